@@ -244,6 +244,8 @@ func soak(c *simkit.Choices, x *simkit.Ctx) *simkit.Violation {
 	return nil
 }
 
+var primTypes = map[string]bool{"Prims": true, "PInt16": true, "[]PUint32": true}
+
 var chainDepths = []int{8, 15, 16, 17, 30, 31, 32, 33, 34, 35, 40, 63, 64, 65, 66, 100, 127, 128, 129, 130}
 
 // genChain draws a document that is one chain of nested containers of drawn
@@ -458,7 +460,7 @@ func (Engine) Run(c *simkit.Choices, x *simkit.Ctx) *simkit.Violation {
 	}
 	te := pickType(c, c.N(20) == 0)
 	if unfolderVariant != 0 && c.Bool() {
-		te = model.TypeByName([]string{"Score", "[]Score", "map[string]Score", "Scored", "Labeled", "Label"}[c.N(6)])
+		te = model.TypeByName([]string{"Score", "[]Score", "map[string]Score", "Scored", "Labeled", "Label", "Prims", "PInt16", "[]PUint32"}[c.N(9)])
 		if c.N(3) == 0 {
 			te = &model.TreeEntry // nested activations of one user unfolder
 		}
@@ -629,6 +631,16 @@ func (Engine) Run(c *simkit.Choices, x *simkit.Ctx) *simkit.Violation {
 					Detail: fmt.Sprintf("a matching document for a type whose user-defined processing unfolder nests: want %s, got %s (err %v)", model.Render(want), model.Render(r.value()), r.err), Scenario: sc}
 			}
 			st.Probe("nested-user-unfolder-exact")
+		}
+		if sameTypeSource != nil && k == len(evs) && len(sc.Announced) == 0 && preset == nil && unfolderVariant != 0 && primTypes[te.Name] {
+			// ground truth for the primitive user unfolders: every P<Kind> value
+			// comes back with the same V (the fold ignores Tag)
+			want, got := reuse.RecordFold(sameTypeSource), reuse.RecordFold(r.value())
+			if r.err != nil || simkit.DiffEvents(want, got) >= 0 {
+				return &simkit.Violation{Kind: "value-corrupted", Site: te.Name + "/primitive-user-unfolder",
+					Detail: fmt.Sprintf("the complete fold of a %s was unfolded through user-defined primitive unfolders: want %s, got %s (err %v)", te.Name, model.Render(sameTypeSource), model.Render(r.value()), r.err), Scenario: sc}
+			}
+			st.Probe("primitive-user-unfolder-exact")
 		}
 		if sameTypeSource != nil && k == len(evs) && len(sc.Announced) == 0 && preset == nil && unfolderVariant == 0 && te.ExactRoundTrip() {
 			// ground truth: the fold of a value of the target's own type, delivered
